@@ -114,7 +114,12 @@ def check_hooks(eng, run, reg):
             run.finding("C17.hook", handler, w if w is not None else handler.node, "the generator no longer returns immediately when the initializer yields None: hooks would run outside the catch-all that is only entered for a real client")
         run.ob("C17.hook", f"{handler.short}:none-client-returns-at-once", ok_none)
         # the named hooks are really invoked from this generator (vacuity guard)
-        hooks = {c.func.attr for c in ast.walk(handler.node) if isinstance(c, ast.Call) and isinstance(c.func, ast.Attribute)} & {"on_connection", "on_disconnection", "handle"}
+        scope_nodes = list(ast.walk(handler.node))
+        for nm in {x.id for x in scope_nodes if isinstance(x, ast.Name) and x.id.startswith("_")}:
+            g = misc.functions.get(nm)  # a private module-level coroutine the generator registers / calls (an extracted closure)
+            if g is not None and not isinstance(g.node, ast.Lambda):
+                scope_nodes += list(ast.walk(g.node))
+        hooks = {c.func.attr for c in scope_nodes if isinstance(c, ast.Call) and isinstance(c.func, ast.Attribute)} & {"on_connection", "on_disconnection", "handle"}
         alias_handle = any(isinstance(n, ast.Assign) and isinstance(n.value, ast.Attribute) and n.value.attr == "handle" for n in ast.walk(handler.node))
         want = {"on_connection", "on_disconnection"} if "stream" in builder_name else set()
         if not (want <= hooks) or not ("handle" in hooks or alias_handle):
@@ -130,7 +135,8 @@ def check_disc(eng, run):
             and n.args and isinstance(n.args[0], ast.Name)]
     cb = None
     for r in regs:
-        f = handler.nested.get(r.args[0].id)
+        # the callback: a closure of the generator, or a private module-level coroutine given its arguments at registration
+        f = handler.nested.get(r.args[0].id) or (misc.functions.get(r.args[0].id) if r.args[0].id.startswith("_") else None)
         if f is not None and any(isinstance(c, ast.Call) and isinstance(c.func, ast.Attribute) and c.func.attr == "on_disconnection" for c in ast.walk(f.node)):
             cb = (r, f)
     if cb is None:
@@ -285,7 +291,17 @@ def check_failable_lookups(eng, run):
     if init is None:
         raise AnalysisError("anchor vanished: AsyncTCPNetworkServer.__client_initializer")
     # the catch-all is entered by the statement that registers the suppress context
-    reg_line = min((c.lineno for c in own_nodes(init.node) if isinstance(c, ast.Call) and "suppress_and_log" in ast.unparse(c)), default=None)
+    # (found by what it is, not by its name: `enter_context(self.<cm>(...))` with <cm> a context manager of the class whose own body
+    # swallows every Exception thrown at its yield)
+    reg = SwallowRegistry(eng)
+    reg_lines = []
+    for c in own_nodes(init.node):
+        if isinstance(c, ast.Call) and isinstance(c.func, ast.Attribute) and c.func.attr in ("enter_context", "enter_async_context") and c.args and isinstance(c.args[0], ast.Call) \
+                and isinstance(c.args[0].func, ast.Attribute) and isinstance(c.args[0].func.value, ast.Name) and c.args[0].func.value.id == init.self_name:
+            g = srv.find_method(mangle(srv.name, c.args[0].func.attr)) or srv.find_method(c.args[0].func.attr)
+            if g is not None and g.has_decorator("contextmanager", "asynccontextmanager") and set(EXC_TOKENS) <= set(reg.swallows_fn(g)):
+                reg_lines.append(c.lineno)
+    reg_line = min(reg_lines, default=None)
     if reg_line is None:
         run.finding("C17.setup", init, init.node, "the per-client initializer no longer enters its suppress-and-log context")
         run.ob("C17.setup", f"{init.short}:failable-lookups-have-defaults", False)
@@ -520,15 +536,16 @@ def run(eng, run):
     run.assumptions += ["task-group semantics: an exception that does not leave a task does not cancel its siblings",
                         "calls inside except/finally arms of set-up tasks (logging, forceful close) and the pre-yield part of the initializers do not raise"]
     reg = SwallowRegistry(eng)
-    check_hooks(eng, run, reg)
-    check_disc(eng, run)
-    check_setup(eng, run, reg)
-    check_failable_lookups(eng, run)
-    check_roots(eng, run)
-    check_receiver_escape(eng, run)
-    check_progress(eng, run)
-    check_close_raises(eng, run)
-    check_error_path_constructs(eng, run)
+    run.attempt(check_hooks, eng, run, reg)
+    run.attempt(check_disc, eng, run)
+    run.attempt(check_setup, eng, run, reg)
+    run.attempt(check_failable_lookups, eng, run)
+    run.attempt(check_roots, eng, run)
+    run.attempt(check_receiver_escape, eng, run)
+    run.attempt(check_progress, eng, run)
+    run.attempt(check_close_raises, eng, run)
+    run.attempt(check_error_path_constructs, eng, run)
+    run.end_of_rules()
 
 
 # ---------------------------------------------------------------------------------------------- self-test corpus
